@@ -68,11 +68,13 @@ def run(ctx, progs):
                 # Arc into self.parent.inner.0 — the ArcSwap paired with the mutex whose guard `self` holds — while that guard is
                 # still alive: no drop / move-out of self (or of its MutexGuard) can reach the store
                 tgt = deep_strip(b.call_term(c.t, c.pos, 0))
-                tgt_ok = match(C("ArcSwapAny::store", F(C("Deref::deref", F(F(P(1), "parent"), "inner")), "0"), C("Arc::new", ANY)), tgt, {})
+                # store(..) or swap(..) (which also hands back the previous map) of a complete map: any value of type Arc<M>
+                tgt_ok = match(ALT(C("ArcSwapAny::store", F(C("Deref::deref", F(F(P(1), "parent"), "inner")), "0"), ANY),
+                                   C("ArcSwapAny::swap", F(C("Deref::deref", F(F(P(1), "parent"), "inner")), "0"), ANY)), tgt, {})
                 drops = lock_drops(b)
                 held = all(c.pos[0] not in b.reachable(d[0]) and not (d[0] == c.pos[0] and d[1] < c.pos[1]) for d in drops)
                 ok = bool(tgt_ok) and held
-                why = f"; sibling of replace: stores Arc::new(..) into self.parent.inner.0 [{bool(tgt_ok)}], no release of self / its MutexGuard reaches the store [{held}, {len(drops)} release point(s)]"
+                why = f"; sibling of replace: stores / swaps an Arc<M> into self.parent.inner.0 [{bool(tgt_ok)}], no release of self / its MutexGuard reaches the store [{held}, {len(drops)} release point(s)]"
             ctx.ob("R11.1.only_replace_stores", f"{b.key}|{canon(c.target).split('::')[-1]}", ok, c.where(),
                    "ArcSwap writer call" + why + ("" if ok else " — outside GuestMemoryExclusiveGuard (or not under its lock): a store that does not hold the update lock can lose a replacement"))
         DIRECT = C("ArcSwapAny::load", F(C("Deref::deref", F(P(1), "inner")), "0"))
@@ -81,7 +83,14 @@ def run(ctx, progs):
             root = prog.by_id.get(b.root, b)
             # the one place a snapshot is taken: the private load() helper, or memory() itself when the helper is inlined
             ok = root.self_adt == ATOM and (root.name == "load" or (root in mem_bodies and canon(c.target).split("::")[-1] == "load"))
-            ctx.ob("R11.1.only_load_loads", f"{b.key}|{canon(c.target).split('::')[-1]}", ok, c.where(), "ArcSwap load call site")
+            why = "ArcSwap load call site"
+            if not ok and root.self_adt == EXCL and b is root:
+                # a method of the exclusive guard reading the map it guards (self.parent.inner.0): a snapshot taken under the update lock
+                tgt = deep_strip(b.call_term(c.t, c.pos, 0))
+                ok = bool(match(ALT(C("ArcSwapAny::load", F(C("Deref::deref", F(F(P(1), "parent"), "inner")), "0")),
+                                    C("ArcSwapAny::load_full", F(C("Deref::deref", F(F(P(1), "parent"), "inner")), "0"))), tgt, {}))
+                why = f"load of self.parent.inner.0 inside a method of the exclusive guard (the update lock is held) [{ok}]"
+            ctx.ob("R11.1.only_load_loads", f"{b.key}|{canon(c.target).split('::')[-1]}", ok, c.where(), why)
         hb = prog.find(adt=ATOM, name="load")
         if len(hb) == 1:
             b = hb[0]
